@@ -382,6 +382,32 @@ func c04Gen(c *eng.Ctx, k *kvAnalysis) {
 				if cell := eng.CellOf(u.X); cell != nil && isResultCell(cell) && k.saveFns[cell.Parent()] && f.Parent() == cell.Parent() && isDeferred(f) {
 					ok = true
 				}
+				// ... or the bump lives in a method the save function defers
+				// with the address of its named error result
+				if prm, isP := u.X.(*ssa.Parameter); isP && prm.Parent() == f {
+					idx := -1
+					for i, q := range f.Params {
+						if q == prm {
+							idx = i
+						}
+					}
+					sites := eng.StaticCallSites(f)
+					all := len(sites) > 0 && idx >= 0
+					for _, cs := range sites {
+						_, isDefer := cs.(*ssa.Defer)
+						if !isDefer || idx >= len(cs.Common().Args) {
+							all = false
+							continue
+						}
+						cell, isAl := cs.Common().Args[idx].(*ssa.Alloc)
+						if !isAl || !isResultCell(cell) || !k.saveFns[cell.Parent()] || cs.Parent() != cell.Parent() {
+							all = false
+						}
+					}
+					if all {
+						ok = true
+					}
+				}
 			}
 			if call, _ := eng.TupleCall(v); call != nil {
 				if cal := eng.Callee(&call.Call); cal != nil && k.saveFns[eng.Unwrap(cal)] {
